@@ -363,6 +363,33 @@ def run(res, tier, rng):
                 bad = [n for n, a, b in zip(names, mo, io) if a != b]
                 res.violation("correspondence", "platform models differ from implementation on: " + ",".join(bad), input=dict(platform=plat, url=u),
                               impl={n: views[n] for n in bad}, model={n: mo[names.index(n)] for n in bad})
+    # ---- the platform-aware branch of normalize_url / fingerprint_url (ural/normalize_url.py, "Platform-specific magic")
+    from ural import normalize_url, fingerprint_url
+    from .norm_common import random_opts, enc_opts
+    from .url_grammar import gen_url
+    pa_cases = [u for plat, u in cases if plat in ("youtube", "facebook")]
+    rng.shuffle(pa_cases)
+    pa_cases = pa_cases[:2500 if tier == "quick" else 40000] + [gen_url(rng) for _ in range(300 if tier == "quick" else 5000)]
+    pa = [(u, random_opts(rng), rng.random() < 0.5) for u in pa_cases]
+    chunks = [pa[i:i + 300] for i in range(0, len(pa), 300)]
+    outs = common.run_driver_parallel([("platform_aware", [env_for(*[c[0] for c in ch]), [[u, enc_opts(o), ss] for u, o, ss in ch]]) for ch in chunks], jobs=12)
+    pa_miss = 0
+    for ch, out in zip(chunks, outs):
+        if not isinstance(out, list):
+            continue
+        for (u, o, ss), mo in zip(ch, out):
+            res.evaluations += 1
+            io = [call(normalize_url, u, platform_aware=True, **o), call(fingerprint_url, u, platform_aware=True, strip_suffix=ss)]
+            io = [x if not (isinstance(x, Exc) and x.name.startswith("Unicode")) else Exc("UnicodeError") for x in io]
+            if not isinstance(mo, list) or Exc("OracleMiss") in mo:
+                pa_miss += 1
+                continue
+            if mo != io:
+                bad = [i for i in range(2) if mo[i] != io[i]]
+                res.violation("correspondence", "platform-aware normalize_url / fingerprint_url models differ from implementation at positions %s" % bad,
+                              input=dict(url=u, options=o, strip_suffix=ss), impl=[io[i] for i in bad], model=[mo[i] for i in bad])
+    res.extra["platform_aware_cases"] = len(pa)
+    res.extra["platform_aware_oracle_miss_skipped"] = pa_miss
     res.extra["oracle_miss_skipped"] = miss
     for fid, text in sorted(HITS.items()):
         res.known_hits.append((fid, text))
@@ -373,7 +400,7 @@ def run(res, tier, rng):
                 "(then seeded random paths up to 5 segments), on the platform's hosts (case variants, subdomains, short domains), rotating scheme forms (https, http, none, '//', userinfo), trailing "
                 "slash / empty segment, 0-3 query items over the platform's keys ('&' and '&amp;'), routing fragments; the truncated routes of the statement on every host; foreign and malformed "
                 "strings. Every parse_* / extract_* / is_* / has_* / convert_* / normalize_* function: no undocumented exception, documented record types, validators on ids, record.url (Facebook, "
-                "Google Drive) and normalize_youtube_url re-parse to the same record, normalize_youtube_url idempotent; model vs implementation. Non-trivial = (function, url) pairs yielding a record."
+                "Google Drive) and normalize_youtube_url re-parse to the same record, normalize_youtube_url idempotent; model vs implementation, including normalize_url / fingerprint_url with platform_aware=True on the Facebook / YouTube urls x sampled options. Non-trivial = (function, url) pairs yielding a record."
                 % depth)
     res.sample(dict(url=cases[50][1], views={k: common.jsonable(v) for k, v in all_views[50].items()}))
     res.theorems = THEOREMS
